@@ -64,7 +64,7 @@ func vhQuery(q int, tail []string) []string {
 func vhPageThrough(s *Server, q int, filter []string, limit int, n int) ([]string, bool) {
 	var all []string
 	cursor := 0
-	for page := 0; page < n+3; page++ {
+	for page := 0; page < n+6; page++ {
 		tail := append([]string{"CURSOR", vhDigits[cursor], "LIMIT", vhDigits[limit]}, filter...)
 		res, _, err := vhDo(s, vhQuery(q, tail)...)
 		if err != nil {
@@ -106,6 +106,12 @@ func vhPaging(q int, n int, symbolicIDs bool, filterKinds int) {
 			vhDo(s, "SET", "k", ids[i], "STRING", "v")
 		}
 	}
+	if q >= 2 && q <= 4 {
+		// objects whose bounding box straddles the edge of the search area: candidates that the exact predicate
+		// of WITHIN rejects, visited between the accepted ones
+		vhDo(s, "SET", "k", "r1", "BOUNDS", "0.5", "0.5", "20", "20")
+		vhDo(s, "SET", "k", "r2", "BOUNDS", "-20", "-20", "1.5", "1.5")
+	}
 	var filter []string
 	switch vchoose(filterKinds) {
 	case 1:
@@ -116,7 +122,7 @@ func vhPaging(q int, n int, symbolicIDs bool, filterKinds int) {
 	case 3:
 		filter = []string{"MATCH", vnondetString(2)}
 	}
-	limit := 1 + vchoose(n+1)
+	limit := 1 + vchoose(n+3)
 
 	res, _, err := vhDo(s, vhQuery(q, append([]string{"LIMIT", "11"}, filter...))...)
 	if err != nil {
